@@ -227,6 +227,19 @@ DIFF_OPTS = [[], ["-s"], ["-o"], ["-q"], ["-v"], ["-d"], ["-t", "/"], ["-s", "-v
              ["-O", "key"], ["-A", "position", "-s"], ["-q", "-s"], ["-q", "-o"], ["-s", "-o"]]
 
 
+DIFF_CONFIGS = [
+    "[defaults]\narrays = value\n",
+    "[defaults]\narrays = position\naoh = dpos\n",
+    "[defaults]\naoh = key\n[keys]\n/items = name\n",
+    "[defaults]\naoh = deep\n[keys]\nitems = val\n",
+    "[defaults]\naoh = value\n",
+    "[rules]\n/c/e = value\n",
+    "[rules]\nitems = key\n[keys]\nitems = name\n",
+    "[rules]\n/nosuch = value\n",
+    "",
+]
+
+
 def gen_diff(rng, tier):
     pairs = list(DIFF_PAIRS)
     for n, vs in VARIANTS.items():
@@ -243,6 +256,19 @@ def gen_diff(rng, tier):
             yield C("diff", opts + [lf, rf], files, twin={"file": rng.choice([lf, rf]), "how": "dash"})
         yield C("diff", [lf, "-"], {lf: lt}, stdin=rt)
         yield C("diff", ["-", rf], {rf: rt}, stdin=lt)
+    # --config files: [defaults], per-path [rules], identity [keys]
+    for (l, r) in pairs:
+        if tier == "quick" and rng.random() < 0.6:
+            continue
+        lf, lt = fname(l), text_of(l)
+        rf, rt = r if isinstance(r, tuple) else ("r_" + fname(r), text_of(r))
+        for cfg in ([rng.choice(DIFF_CONFIGS)] if tier == "quick" else rng.sample(DIFF_CONFIGS, 3)):
+            opts = rng.choice([[], [], ["-s"], ["-o"], ["-q"], ["-A", "value"], ["-O", "key"], ["-t", "/"]])
+            yield C("diff", ["-c", "diff.ini"] + opts + [lf, rf], {lf: lt, rf: rt, "diff.ini": cfg})
+    yield C("diff", ["-c", "diff.ini", fname("map"), fname("aoh")], dict(F("map", "aoh"), **{"diff.ini": "not an ini file"}))
+    yield C("diff", ["-c", "diff.ini", fname("aoh"), "r_aoh.yaml"],
+            {fname("aoh"): text_of("aoh"), "r_aoh.yaml": VARIANTS["aoh"][0], "diff.ini": "[defaults]\naoh = bogus\n"})
+    yield C("diff", ["-c", "adir", fname("map"), fname("aoh")], dict(F("map", "aoh"), adir=None))
     # multi-document sources and indexes
     for (l, r) in [("multi3", "multi3"), ("multi2", "map"), ("map", "multi3"), ("multi3", "multi_bad_tail"),
                    ("multi_json", "multi2")]:
@@ -279,6 +305,23 @@ def gen_diff(rng, tier):
 MERGE_OPTS = [[], [], ["-D", "json"], ["-D", "yaml"], ["-D", "auto"], ["-A", "unique"], ["-H", "left"], ["-O", "deep"],
               ["-a", "rename"], ["-m", "/c"], ["-m", "new.place"], ["-J", "2", "-D", "json"], ["-l"]]
 MODES = [[], [], ["-M", "condense_all"], ["-M", "merge_across"], ["-M", "matrix_merge"]]
+
+
+MERGE_CONFIGS = [
+    "[defaults]\narrays = unique\n",
+    "[defaults]\nhashes = left\narrays = left\naoh = left\n",
+    "[defaults]\nhashes = right\narrays = right\nanchors = right\n",
+    "[defaults]\naoh = deep\n[keys]\n/items = name\n",
+    "[defaults]\naoh = unique\n",
+    "[rules]\n/c/e = unique\n/c = left\n",
+    "[rules]\nc.e = right\n[defaults]\narrays = all\n",
+    "[rules]\n/items = deep\n[keys]\nitems = val\n",
+    "[defaults]\nsets = left\n[rules]\n/st = unique\n",
+    "[rules]\n/nosuch/path = left\n",
+    "",
+]
+MERGE_CFG_PAIRS = [("map", "map"), ("aoh", "aoh"), ("map", "aoh"), ("sets", "sets"), ("deep", "deep"), ("jmap", "map"),
+                   ("aoh", "jaoh"), ("anchors", "map"), ("nulls", "nulls"), ("list", "list")]
 
 
 def gen_merge(rng, tier):
@@ -328,6 +371,29 @@ def gen_merge(rng, tier):
         elif s < 0.38:
             argv.append("-b")                                                # --backup without --overwrite
         yield C("merge", argv + names, files, stdin=stdin)
+    # --config files: [defaults], per-path [rules], identity [keys]
+    nconf = 60 if tier == "quick" else 500
+    for i in range(nconf):
+        cfg = rng.choice(MERGE_CONFIGS)
+        lhs, rhs = rng.choice(MERGE_CFG_PAIRS)
+        files = {"l_" + fname(lhs): text_of(lhs), "r_" + fname(rhs): VARIANTS.get(rhs, [text_of(rhs)])[0]
+                 if rng.random() < 0.5 else text_of(rhs), "merge.ini": cfg}
+        argv = ["-c", "merge.ini"] + rng.choice([[], [], ["-A", "all"], ["-H", "right"], ["-O", "left"], ["-M", "merge_across"],
+                                                 ["-M", "matrix_merge"], ["-D", "json"]])
+        stdin = None
+        names = ["l_" + fname(lhs), "r_" + fname(rhs)]
+        if rng.random() < 0.2:
+            stdin = files.pop(names[1])
+            names[1] = "-" if rng.random() < 0.5 else None
+        else:
+            argv.append("-S")
+        if rng.random() < 0.2:
+            argv += ["-w", "out.yaml"]
+        yield C("merge", argv + [n for n in names if n], files, stdin=stdin)
+    yield C("merge", ["-S", "-c", "merge.ini", fname("map")], dict(F("map"), **{"merge.ini": "not an ini file"}))
+    yield C("merge", ["-S", "-c", "merge.ini", fname("map"), fname("aoh")],
+            dict(F("map", "aoh"), **{"merge.ini": "[defaults]\narrays = bogus\n"}))
+    yield C("merge", ["-S", "-c", "adir", fname("map")], dict(F("map"), adir=None))
     # STDIN twins of single documents and the implied-STDIN-only form
     for n in MERGEABLE + ["jmap", "multi2", "multi3", "list", "scalar_doc", "empty", "null_doc", "bad_flow"]:
         yield C("merge", ["-S", fname(n)], F(n))
@@ -415,6 +481,8 @@ def gen_set(rng, tier):
                     if rep == 0 and kind in ("value", "delete", "check_bad", "mustexist"):
                         yield C("set", argv + ["-"], {}, stdin=text)
                         yield C("set", argv, {}, stdin=text)
+    for c in gen_set_more(rng, tier):
+        yield c
     # a YAML document in a .json file and a JSON document in a .yaml file
     yield C("set", ["-g", "a", "-a", "9", "doc.json"], {"doc.json": text_of("map")})
     yield C("set", ["-g", "a", "-a", "9", "doc.yaml"], {"doc.yaml": text_of("jmap")})
@@ -438,6 +506,132 @@ def gen_set(rng, tier):
     yield C("set", ["-g", "a", "-f", "nofile.txt", fname("map")], F("map"))
     yield C("set", ["-a", "1", fname("map")], F("map"))
     yield C("set", ["-g", "a", "-a", "1", "-N", fname("map")], F("map"))
+
+
+# --tag / --aliasof / --mergekey / --file / --stdin / --random / --eyamlcrypt
+MK_DOC = "defaults: {x: 1, y: 2}\ntarget: {z: 3}\nother:\n  y: 9\nscalar: 5\nlst: [{k: 1}, {k: 2}]\n"
+TAG_TARGETS = [("map", ["a", "b", "c", "c.e", "c.e[0]", "zz", "c.*"]), ("scalars", ["i", "f", "t", "n", "s", "e", "q"]),
+               ("dates", ["d", "ts", "when"]), ("sets", ["st", "other"]), ("anchors", ["name", "ref", "use", "base.x"]),
+               ("jmap", ["a", "b", "c"]), ("multiline", ["lit", "fold"]), ("list", ["[0]", "[1]", "[2]", "[3]"]),
+               ("scalar_doc", [""]), ("empty", ["new.key"])]
+ALIAS_CASES = [("anchors", "ref", "list", None), ("anchors", "ref", "base.x", "newanch"), ("anchors", "ref", "base.x", None),
+               ("anchors", "name", "base", "& b *"), ("anchors", "again[0]", "name", None), ("anchors", "ref", "nowhere", None),
+               ("anchors", "nosuch", "base", None), ("anchors", "use", "list", "l"), ("anchors", "ref", "name", "other"),
+               ("map", "b", "a", None), ("map", "c.e.*", "a", "shared"), ("map", "c.e", "c.d", "num"),
+               ("map", "c", "c.e", None), ("aoh", "items.val", "items[0].name", "first"), ("jmap", "b", "a", None),
+               ("map", "a", "a", "self"), ("map", "b", "c", "cmap")]
+MERGEKEY_CASES = [("target", "defaults", None), ("other", "defaults", "dflt"), ("scalar", "defaults", None),
+                  ("target", "scalar", None), ("target", "nowhere", None), ("nosuch", "defaults", None),
+                  ("lst.*", "defaults", "d"), ("lst", "defaults", None), ("target", "other", "& o")]
+
+
+def eyaml_bits():
+    import os
+    import sys
+    here = os.path.dirname(os.path.abspath(__file__))
+    if here not in sys.path:
+        sys.path.insert(0, here)
+    import eyaml_standin
+    key = "STANDIN-EYAML-KEY c16key\n"
+    other = "STANDIN-EYAML-KEY another\n"
+    secret = eyaml_standin.encrypt_bytes(b"c16key", b"secret")
+    return os.path.join(here, "eyaml_standin.py"), key, other, secret
+
+
+def gen_set_more(rng, tier):
+    reps = 1 if tier == "quick" else 3
+    # --tag alone (tag_gathered_nodes) and with a new value / --saveto (set_value(..., tag=))
+    for doc, paths in TAG_TARGETS:
+        text, fn = text_of(doc), fname(doc)
+        for pth in paths:
+            for rep in range(reps):
+                tag = rng.choice(["!x", "x", "!tagged", "!my/tag"])
+                argv = ["--change=" + pth, "-T", tag] + rng.choice(NOISE)
+                files = {fn: text}
+                if rng.random() < 0.3:
+                    argv.append("-b")
+                    if rng.random() < 0.4:
+                        files[fn + ".bak"] = "stale\n"
+                yield C("set", argv + [fn], files)
+                if rep == 0:
+                    yield C("set", ["--change=" + pth, "-T", tag], {}, stdin=text)
+                    yield C("set", ["--change=" + pth, "-T", tag, "-"], {}, stdin=text)
+                    yield C("set", ["--change=" + pth, "-T", tag, "--value=" + rng.choice(SET_VALUES)] + rng.choice(NOISE) + [fn],
+                            {fn: text})
+                    yield C("set", ["--change=" + pth, "-T", tag, "-N", fn], {fn: text})
+                    yield C("set", ["--change=" + pth, "-T", tag, "-a", "9", "-F", rng.choice(["int", "dquote", "bare"]),
+                                    "-s", "saved.here", fn], {fn: text})
+                    yield C("set", ["--change=" + pth, "-T", tag, "-m", fn], {fn: text})
+    # --aliasof [--anchor]
+    for (doc, chg, tgt, anch) in ALIAS_CASES:
+        text, fn = text_of(doc), fname(doc)
+        for sl in (False, True):
+            c2 = ("/" + chg.replace(".", "/")) if sl else chg
+            t2 = ("/" + tgt.replace(".", "/")) if sl else tgt
+            argv = ["--change=" + c2, "-A", t2] + (["-H", anch] if anch is not None else []) + (["-t", "/"] if sl and rng.random() < 0.5 else [])
+            yield C("set", argv + rng.choice(NOISE) + [fn], {fn: text})
+            if not sl:
+                yield C("set", argv, {}, stdin=text)
+                yield C("set", argv + ["-m", fn], {fn: text})
+                yield C("set", argv + ["-c", rng.choice(["val", "two", "nope"]), fn], {fn: text})
+    yield C("set", ["-g", "ref", "-H", "lonely", "anchors.yaml"], F("anchors"))             # --anchor without --aliasof
+    yield C("set", ["-g", "ref", "-A", "name", "-a", "v", "anchors.yaml"], F("anchors"))     # argparse: exclusive group
+    # --mergekey [--anchor]
+    for (chg, tgt, anch) in MERGEKEY_CASES:
+        argv = ["--change=" + chg, "-K", tgt] + (["-H", anch] if anch is not None else [])
+        yield C("set", argv + rng.choice(NOISE) + ["mk.yaml"], {"mk.yaml": MK_DOC})
+        yield C("set", argv, {}, stdin=MK_DOC)
+        yield C("set", argv + ["-b", "mk.yaml"], {"mk.yaml": MK_DOC})
+    yield C("set", ["-g", "c", "-K", "c.d", "map.yaml"], F("map"))
+    yield C("set", ["-g", "items[0]", "-K", "items[1]", "-H", "second", "aoh.yaml"], F("aoh"))
+    # --file: the value is the file's content, right-stripped
+    for (doc, pth) in [("map", "a"), ("map", "c.e[0]"), ("map", "new.key"), ("list", "[1]"), ("jmap", "a"), ("empty", "k"),
+                       ("multiline", "lit"), ("scalars", "i")]:
+        for val in ["from file\n\n", "42\n", "line one\nline two\n", "", "  padded  \n", "true"]:
+            if tier == "quick" and rng.random() < 0.5:
+                continue
+            argv = ["--change=" + pth, "-f", "val.txt"] + rng.choice([[], [], ["-F", "literal"], ["-F", "int"], ["-m"], ["-T", "!t"]])
+            yield C("set", argv + rng.choice(NOISE) + [fname(doc)], {fname(doc): text_of(doc), "val.txt": val})
+    yield C("set", ["-g", "a", "-f", "val.txt"], {"val.txt": "piped doc\n"}, stdin=text_of("map"))
+    yield C("set", ["-g", "a", "-f", "adir", "map.yaml"], dict(F("map"), adir=None))
+    # --stdin: the value comes from STDIN, the document from the file
+    for (doc, pth) in [("map", "a"), ("map", "c.zz"), ("list", "[0]"), ("jmap", "c.e[1]"), ("empty", "k.j")]:
+        for val in ["piped\n", "", "7", "two\nlines\n", "x: y\n"]:
+            if tier == "quick" and rng.random() < 0.4:
+                continue
+            argv = ["--change=" + pth, "-i"] + rng.choice([[], [], ["-F", "squote"], ["-b"], ["-T", "t"], ["-S"]])
+            yield C("set", argv + rng.choice(NOISE) + [fname(doc)], {fname(doc): text_of(doc)}, stdin=val)
+    yield C("set", ["-g", "a", "-i", "map.yaml"], F("map"))                                   # a terminal: empty value
+    yield C("set", ["-g", "a", "-i", "-S"], {}, stdin="v")
+    # --random LEN [--random-from POOL] (secrets.choice is replaced by a deterministic stand-in)
+    for (doc, pth) in [("map", "a"), ("map", "pw.new"), ("aoh", "items.val"), ("list", "[1]"), ("empty", "secret")]:
+        for (n, pool) in [("8", "abc"), ("1", "xy"), ("0", "abc"), ("12", None), ("5", "AbCdEf"), ("3", "x"), ("-2", "ab"),
+                          ("4", "01"), ("6", "")]:
+            if tier == "quick" and rng.random() < 0.4:
+                continue
+            argv = ["--change=" + pth, "-R", n] + (["-M", pool] if pool is not None else [])
+            yield C("set", argv + rng.choice(NOISE) + [fname(doc)], {fname(doc): text_of(doc)})
+    yield C("set", ["-g", "a", "-R", "6", "-M", "pq"], {}, stdin=text_of("map"))
+    yield C("set", ["-g", "a", "-R", "six", "map.yaml"], F("map"))
+    # --eyamlcrypt through the stand-in cipher of the C19 work
+    binary, key, other, secret = eyaml_bits()
+    edoc = "plain: text\nenc: %s\nfolded: >\n  some folded\n  text\nn: 5\n" % secret
+    keys = {"priv.key": key, "pub.key": key}
+    kopts = ["-x", binary, "-r", "priv.key", "-u", "pub.key"]
+    for pth in ["plain", "enc", "folded", "n", "newly.made", "nosuch[0]"]:
+        for extra in [[], ["-F", "folded"], ["-F", "literal"], ["-m"], ["-b"], ["-c", "secret"], ["-c", "wrong"], ["-s", "old.value"]]:
+            if tier == "quick" and rng.random() < 0.5:
+                continue
+            yield C("set", ["--change=" + pth, "-a", "new secret", "-e"] + kopts + extra + rng.choice(NOISE) + ["e.yaml"],
+                    dict(keys, **{"e.yaml": edoc}))
+    yield C("set", ["-g", "plain", "-a", "v", "-e", "-x", "/nonexistent/eyaml", "e.yaml"], {"e.yaml": edoc})
+    yield C("set", ["-g", "plain", "-a", "v", "-e", "-x", binary, "-r", "priv.key", "e.yaml"], dict(keys, **{"e.yaml": edoc}))
+    yield C("set", ["-g", "enc", "-a", "v", "-c", "secret", "-x", binary, "-r", "priv.key", "e.yaml"], dict(keys, **{"e.yaml": edoc}))
+    yield C("set", ["-g", "enc", "-a", "v", "-c", "secret", "-x", binary, "-r", "priv.key", "-u", "pub.key", "e.yaml"],
+            {"e.yaml": edoc, "priv.key": other, "pub.key": other})                              # wrong key pair: decryption fails
+    yield C("set", ["-g", "enc", "-a", "v", "-c", "secret"] + kopts + ["e.yaml"], dict(keys, **{"e.yaml": edoc}))
+    yield C("set", ["-g", "plain", "-i", "-e"] + kopts + ["e.yaml"], dict(keys, **{"e.yaml": edoc}), stdin="from stdin")
+    yield C("set", ["-g", "plain", "-a", "v", "-e"] + kopts, dict(keys), stdin=edoc)
 
 
 # ---------------------------------------------------------------------------
@@ -511,7 +705,7 @@ def chunks(tier, seed):
         for case in g(rng, tier):
             n += 1
             # a sample also goes through the installed console scripts (thorough tier)
-            if tier == "thorough" and n % 9 == 0:
+            if (tier == "thorough" or os.environ.get("C16_SCRIPTS")) and n % 9 == 0:
                 case["script"] = True
             buf.append(case)
             if len(buf) >= size:
@@ -531,9 +725,14 @@ def corpus_chunks():
         C("merge", [], {}, stdin="q: 1\n"),
         C("merge", ["-M", "merge_across"], {}, stdin="a: 1\n---\nb: 2\n"),
     ]
-    cases.append(C("set", ["--change=a", "--value=9", "-F", "float", "map.yaml"], F("map")))    # known: F-float
+    cases.append(C("set", ["--change=a", "--value=9", "-F", "float", "map.yaml"], F("map")))    # repaired in the library: `!!float '9'` did not load again
     cases.append(C("merge", ["-S", "anchors.yaml", "r_anchors.yaml"],
-                   {"anchors.yaml": text_of("anchors"), "r_anchors.yaml": text_of("anchors")}))   # known: F-matrix (hang)
+                   {"anchors.yaml": text_of("anchors"), "r_anchors.yaml": text_of("anchors")}))   # repaired in the library: merging a document into itself never returned
     cases.append(C("diff", ["nulls.yaml", "r_nulls.yaml"],
-                   {"nulls.yaml": text_of("nulls"), "r_nulls.yaml": text_of("nulls")}))           # known: F-diff
+                   {"nulls.yaml": text_of("nulls"), "r_nulls.yaml": text_of("nulls")}))           # repaired in the library: a list holding null differed from itself
+    # known finding ruamel_block_scalar_indent: a block scalar starting with a space loses it on reload
+    cases.append(C("set", ["--change=a", "--value=  padded", "-F", "literal", "map.yaml"], F("map")))
+    # fixed 9aeb9d5: a value the YAML dumper cannot represent no longer costs the user the file
+    cases.append(C("set", ["-g", "a", "-T", "!x", "map.yaml"], F("map")))
+    cases.append(C("set", ["-g", "a", "-T", "!x", "-b", "map.yaml"], dict(F("map"), **{"map.yaml.bak": "stale\n"})))
     return [cases]
